@@ -11,9 +11,12 @@
 (*   wb.prot     <<>> or <<workbook protection record>>                    *)
 (* a sheet:                                                                *)
 (*   name, state ("visible" | "hidden" | "veryHidden"),                    *)
-(*   merges   set of range texts          links    set of [cell,url,loc]   *)
+(*   merges   set of range texts      links  set of [cell,url,loc,tip]     *)
 (*   comments set of [r,c,author,text,vr,vc]  (vr,vc: cell the VML shape   *)
-(*            of the comment points to, 0-based)                           *)
+(*            of the comment points to, 0-based; text = the runs of the    *)
+(*            comment one after the other, blanks included)                *)
+(*   code     <<>> or <<code name>>: stored in the same sheetPr element as *)
+(*            the tab colour; carried and driven, NOT part of the property *)
 (*   dvs      set of validation records   cfs      set of [sqref, rules]   *)
 (*   af, tab, prot   <<>> or <<value>>    views    sequence of views       *)
 (*   ps, hf   page setup / header-footer records                           *)
@@ -49,7 +52,7 @@ vars == <<wb, last>>
 
 (* ---------------------------------------------------------------- sheets *)
 DefaultPs == [paper |-> 0, orient |-> "default", scale |-> 0, fith |-> 0, fitw |-> 0, hdpi |-> 0, vdpi |-> 0]
-NewSheet(nm) == [name |-> nm, state |-> "visible", merges |-> {}, links |-> {}, comments |-> {}, dvs |-> {}, cfs |-> {},
+NewSheet(nm) == [name |-> nm, state |-> "visible", code |-> <<>>, merges |-> {}, links |-> {}, comments |-> {}, dvs |-> {}, cfs |-> {},
                  af |-> <<>>, tab |-> <<>>, views |-> <<>>, ps |-> DefaultPs, hf |-> [h |-> "", f |-> ""],
                  prot |-> <<>>, names |-> {}]
 EmptyWb == [sheets |-> <<>>, active |-> 0, names |-> {}, prot |-> <<>>]
@@ -71,8 +74,12 @@ SetStateP(w, i, st)  == [w EXCEPT !.sheets[i].state = st]
 SetActiveP(w, k)     == [w EXCEPT !.active = k]
 AddMergeP(w, i, rg)  == [w EXCEPT !.sheets[i].merges = @ \cup {rg}]
 (* a cell carries at most one hyperlink: a new one replaces the old one *)
-AddLinkP(w, i, cell, url, loc) ==
-  [w EXCEPT !.sheets[i].links = {x \in @ : x.cell # cell} \cup {[cell |-> cell, url |-> url, loc |-> loc]}]
+AddLinkP(w, i, cell, url, loc, tip) ==
+  [w EXCEPT !.sheets[i].links = {x \in @ : x.cell # cell} \cup {[cell |-> cell, url |-> url, loc |-> loc, tip |-> tip]}]
+SetCodeP(w, i, cn) == [w EXCEPT !.sheets[i].code = <<cn>>]
+(* the text of a comment: its runs ([t, b]: text, bold) one after the other *)
+RECURSIVE CatRuns(_, _)
+CatRuns(runs, k) == IF k > Len(runs) THEN "" ELSE runs[k].t \o CatRuns(runs, k + 1)
 AddCommentP(w, i, r, c, au, tx) ==
   [w EXCEPT !.sheets[i].comments = @ \cup {[r |-> r, c |-> c, author |-> au, text |-> tx, vr |-> r - 1, vc |-> c - 1]}]
 AddNameP(w, home, n) == IF home = 0 THEN [w EXCEPT !.names = @ \cup {n}] ELSE [w EXCEPT !.sheets[home].names = @ \cup {n}]
@@ -112,8 +119,8 @@ AuthorsOf(sh) == {x.author : x \in sh.comments}
 (* abstract sheet part + its relationships + comments part + VML part *)
 SaveSheet(sh, q1, q2, authorSeq) ==
   [ sheet   |-> sh,                                             \* everything that is written in place
-    xlinks  |-> { IF x.loc THEN [cell |-> x.cell, kind |-> "loc", v |-> x.url, rid |-> 0]
-                           ELSE [cell |-> x.cell, kind |-> "rid", v |-> "", rid |-> PosIn(ExtSeq(sh, q1), x.cell)]
+    xlinks  |-> { IF x.loc THEN [cell |-> x.cell, kind |-> "loc", v |-> x.url, rid |-> 0, tip |-> x.tip]
+                           ELSE [cell |-> x.cell, kind |-> "rid", v |-> "", rid |-> PosIn(ExtSeq(sh, q1), x.cell), tip |-> x.tip]
                   : x \in sh.links },
     rels    |-> [k \in 1..Len(ExtSeq(sh, q2)) |-> LinkAt(sh, ExtSeq(sh, q2)[k]).url],
     authors |-> authorSeq,
@@ -122,7 +129,8 @@ SaveSheet(sh, q1, q2, authorSeq) ==
 
 LoadSheet(fs) ==
   [ fs.sheet EXCEPT
-      !.links    = { [cell |-> e.cell, url |-> IF e.kind = "loc" THEN e.v ELSE fs.rels[e.rid], loc |-> e.kind = "loc"]
+      !.links    = { [cell |-> e.cell, url |-> IF e.kind = "loc" THEN e.v ELSE fs.rels[e.rid], loc |-> e.kind = "loc",
+                       tip |-> e.tip]
                      : e \in fs.xlinks },
       !.comments = { LET sp == CHOOSE s \in fs.shapes : s.vr = e.r - 1 /\ s.vc = e.c - 1      \* joined by cell reference
                      IN [r |-> e.r, c |-> e.c, author |-> fs.authors[e.aid], text |-> e.text, vr |-> sp.vr, vc |-> sp.vc]
@@ -155,7 +163,8 @@ RemoveSheet(i)            == i \in DOMAIN wb.sheets /\ CanRemoveSheet(wb, i) /\ 
 SetState(i, st)           == i \in DOMAIN wb.sheets /\ wb' = SetStateP(wb, i, st) /\ Op("setstate")
 SetActive(k)              == wb' = SetActiveP(wb, k) /\ Op("setactive")
 AddMerge(i, rg)           == i \in DOMAIN wb.sheets /\ CanAddMerge(wb, i, rg) /\ wb' = AddMergeP(wb, i, rg) /\ Op("addmerge")
-AddLink(i, cell, url, loc) == i \in DOMAIN wb.sheets /\ wb' = AddLinkP(wb, i, cell, url, loc) /\ Op("addlink")
+AddLink(i, cell, url, loc, tip) == i \in DOMAIN wb.sheets /\ wb' = AddLinkP(wb, i, cell, url, loc, tip) /\ Op("addlink")
+SetCode(i, cn)            == i \in DOMAIN wb.sheets /\ wb' = SetCodeP(wb, i, cn) /\ Op("setcode")
 AddComment(i, r, c, au, tx) == i \in DOMAIN wb.sheets /\ CanAddComment(wb, i, r, c) /\ wb' = AddCommentP(wb, i, r, c, au, tx)
                                /\ Op("addcomment")
 AddName(home, n)          == CanAddName(wb, home, n) /\ wb' = AddNameP(wb, home, n) /\ Op("addname")
@@ -178,7 +187,7 @@ SaveLoad(Q1, Q2, AU) ==
 (* ------------------------------------------------------------- properties *)
 (* what must survive: everything, with defined names compared as one collection (where a name is kept -        *)
 (* workbook list or a sheet's list - is representation; LoadWb fixes it by the Home rule)                        *)
-Kept(w) == [ sheets |-> [i \in DOMAIN w.sheets |-> [w.sheets[i] EXCEPT !.names = {}]],
+Kept(w) == [ sheets |-> [i \in DOMAIN w.sheets |-> [w.sheets[i] EXCEPT !.names = {}, !.code = <<>>]],
              active |-> w.active, prot |-> w.prot, dnames |-> AllNames(w) ]
 AnnotationsKept == [][last'.op = "saveload" => Kept(wb') = Kept(wb)]_vars
 (* after a load every name sits where the Home rule puts it *)
